@@ -5,6 +5,7 @@ import (
 	"encoding/json"
 	"errors"
 	"fmt"
+	"sync"
 	"time"
 
 	flyt "github.com/mark3labs/flyt"
@@ -279,8 +280,11 @@ func runCfgBatch(cs *CfgCase) (fs []finding) {
 	}()
 	pr := &cfgProbe{prepTag: -1, execTag: -1, postTag: -1, fbTag: -1}
 	executed := map[int]int{}
+	var pmu sync.Mutex // the probe must survive a node that (wrongly) runs its items concurrently
 	execR := func(tag int) func(context.Context, flyt.Result) (flyt.Result, error) {
 		return func(_ context.Context, it flyt.Result) (flyt.Result, error) {
+			pmu.Lock()
+			defer pmu.Unlock()
 			pr.execTag = tag
 			pr.execCalls++
 			i, _ := it.Value().(int)
@@ -293,6 +297,8 @@ func runCfgBatch(cs *CfgCase) (fs []finding) {
 	}
 	execA := func(tag int) func(context.Context, any) (any, error) {
 		return func(_ context.Context, v any) (any, error) {
+			pmu.Lock()
+			defer pmu.Unlock()
 			pr.execTag = tag
 			pr.execCalls++
 			i, _ := v.(int)
@@ -304,7 +310,7 @@ func runCfgBatch(cs *CfgCase) (fs []finding) {
 		}
 	}
 	fb := func(tag int) func(any, error) (any, error) {
-		return func(any, error) (any, error) { pr.fbTag = tag; return nil, errProbe }
+		return func(any, error) (any, error) { pmu.Lock(); pr.fbTag = tag; pmu.Unlock(); return nil, errProbe }
 	}
 	prepB := func(tag int) func(context.Context, *flyt.SharedStore) ([]flyt.Result, error) {
 		return func(context.Context, *flyt.SharedStore) ([]flyt.Result, error) {
@@ -478,7 +484,7 @@ func runC19(c *Cfg) {
 	})
 	r.Exhaustive = true
 	r.Note(fmt.Sprintf("all setting sequences up to length %d over 8 setting kinds x 2 values, every option/builder split, plain and batch builders: %d sequences; the length-6 space (~1.7e7 sequences x 7 splits) is sampled, not enumerated", maxLen, total))
-	n := c.Pick(5000, 300000)
+	n := c.Pick(50000, 1000000)
 	parallel(c, n, func(i int) {
 		rg := c.Rng("c19", i)
 		l := 5 + rg.IntN(2)
@@ -505,8 +511,36 @@ func runC19(c *Cfg) {
 	}
 }
 
+// canaries: nodes created before any case configures anything; configuring OTHER nodes must never change them
+var (
+	canaryNode  = flyt.NewNode()
+	canaryBatch = flyt.NewBatchNode()
+	canaryBase  = flyt.NewBaseNode()
+)
+
+func defaultsIntact() (fs []finding) {
+	add := func(key, f string, a ...any) { fs = append(fs, finding{"other-node-" + key, fmt.Sprintf(f, a...)}) }
+	var none [numSettings]int
+	for i := range none {
+		none[i] = -1
+	}
+	checkGetters(canaryNode, none, add, "existing-NewNode")
+	checkGetters(canaryBatch, none, add, "existing-NewBatchNode")
+	checkGetters(canaryBase, none, add, "existing-NewBaseNode")
+	checkGetters(flyt.NewNode(), none, add, "fresh-NewNode")
+	checkGetters(flyt.NewBatchNode(), none, add, "fresh-NewBatchNode")
+	checkGetters(flyt.NewBaseNode(), none, add, "fresh-NewBaseNode")
+	return
+}
+
 func runCfg(c *Cfg, cs *CfgCase) {
 	r := c.Rep
+	defer func() {
+		// configuring one node must leave every other node — created earlier or later — at its documented defaults
+		for _, f := range defaultsIntact() {
+			r.Violate("C19", "C19:"+f.key, "after configuring a different node: "+f.detail, cs)
+		}
+	}()
 	var fs []finding
 	if cs.Batch {
 		fs = runCfgBatch(cs)
